@@ -67,6 +67,19 @@ theorem Ipts_unpack_bytes (i t : Ipts) (h : Ipts_WF i) (hk : sameKind t i) (hn :
     rw [decInt_encInt4 _ _ (by omega), decInt_encInt4 _ _ (by omega)]
   | none => exact absurd rfl hn
 
+/-- the time-stamp step of the word / frame decoders on bytes that start with an encoded time stamp -/
+theorem unpackTs_bytes (i t : Ipts) (rest : Bytes) (h : Ipts_WF i) (hk : sameKind t i) :
+    unpackTs t (iptsBytes i ++ rest) = .ok (i, (iptsBytes i).length) := by
+  by_cases hn : i = .none
+  · have ht : t = .none := by
+      rw [hn] at hk; cases t <;> simp_all [sameKind]
+    simp [unpackTs, ht, hn, iptsBytes]
+  · have ht : t ≠ .none := by
+      intro ht; rw [ht] at hk; cases i <;> simp_all [sameKind]
+    have hl8 := iptsBytes_length _ hn
+    have htake : List.take 8 (iptsBytes i ++ rest) = iptsBytes i := take_append_len _ _ _ hl8.symm
+    simp [unpackTs, ht, htake, Ipts_unpack_bytes _ _ h hk hn, hl8]
+
 theorem Ipts_unpack_kind (t i : Ipts) (buf : Bytes) (h : Ipts.unpack t buf = .ok i) : sameKind t i := by
   cases t <;> simp only [Ipts.unpack] at h
   · repeat' split at h
